@@ -61,6 +61,7 @@ func (r *runner) reply(format string, a ...interface{}) {
 }
 func (r *runner) resolve(format string, a ...interface{}) {
 	fmt.Fprintf(r.resolved, format+"\n", a...)
+	r.resolved.Flush() // a crash of the real code must not lose the op that caused it
 }
 
 // next returns the next op line (case markers are echoed to both outputs and skipped); ok=false at EOF.
